@@ -66,6 +66,9 @@ func cmds(t *rapid.T, label string, tok string, max int) []string {
 			out[i] = fmt.Sprintf("printf '%s-%d\\n'; exit %d", tok, i, rapid.IntRange(0, 3).Draw(t, label+"_st"))
 		case 2:
 			out[i] = fmt.Sprintf("printf '%s-%d v=%%s\\n' '{{ index . \"v1\" }}'", tok, i)
+		case 3:
+			// every variable name the generator uses, at whatever level it was defined
+			out[i] = fmt.Sprintf("printf '%s-%d vars=%%s|%%s|%%s|%%s|%%s env=%%s|%%s\\n' '{{ index . \"K1\" }}' '{{ index . \"K2\" }}' '{{ index . \"K3\" }}' '{{ index . \"lower\" }}' '{{ index . \"MiXed\" }}' \"$K3\" \"$lower\"", tok, i)
 		default:
 			out[i] = fmt.Sprintf("printf '%s-%d\\n'", tok, i)
 		}
